@@ -74,6 +74,14 @@ class Work:
     def __init__(self, tag):
         root = os.path.join(VERIF, ".build")
         os.makedirs(root, exist_ok=True)
+        # scratch directories of runs that were killed before they could clean up (older than 12 h) are removed here
+        try:
+            for d in os.listdir(root):
+                pth = os.path.join(root, d)
+                if re.match(r"C\d\d-(quick|thorough)-", d) and os.path.isdir(pth) and time.time() - os.path.getmtime(pth) > 12 * 3600:
+                    shutil.rmtree(pth, ignore_errors=True)
+        except OSError:
+            pass
         self.dir = tempfile.mkdtemp(prefix=tag + "-", dir=root)
 
     def path(self, *p):
